@@ -8,7 +8,7 @@ ROOT = os.path.dirname(os.path.dirname(os.path.abspath(__file__)))
 CHECKS = {
     "C19": dict(
         level="exploration", design="DESIGN.md section 4 C19",
-        text="Eight rapid model-based checks (zip tree with generator-chosen ranks, heap with Fix, partitioned priority queue, sorted cache, insertion-ordered set, sorted map, the three merge iterators, unique binary search) compare every return value and the full iteration after every operation with a sorted-slice/map reference. Exploration is the right level: the structures are small pure data structures, operation sequences are cheap (tens of microseconds), so hundreds of thousands of distinct sequences over colliding keys are run per invocation; nothing is proved.",
+        text="Eight rapid model-based checks (zip tree with generator-chosen ranks, heap with Fix, partitioned priority queue, sorted cache, insertion-ordered set, sorted map, the three merge iterators, unique binary search) compare every return value with a sorted-slice/map reference, and the full iteration after every operation (for the lazily sorted map: at observation ops of their own and at the end, so that writes follow writes). Exploration is the right level: the structures are small pure data structures, operation sequences are cheap (tens of microseconds), so hundreds of thousands of distinct sequences over colliding keys are run per invocation; nothing is proved.",
         note="Trusts the reference models (a few lines each) and rapid's generators. Tie order among equal priorities is not compared. Zip-tree ranks come from the generator through the verif-tagged ziptree.rank hook.",
         technique="property-based testing: rapid model-based operation sequences vs sorted-slice/map reference models",
     ),
@@ -25,7 +25,7 @@ CHECKS.update({
         note="Trusts the harness reference hash, itself pinned by published vectors.",
         technique="property-based testing: differential against an independent reference implementation + golden vectors"),
     "C20": dict(level="exploration", design="DESIGN.md section 4 C20",
-        text="EventBatcher: model-based sequences of Add/IsFull/Flush(token)/timer expiry (including stale timers) against a list model. ReorderFetcher: real goroutines with generated fetch latencies and pauses injected through a verif hook between Flush and Reserve; the output must be the inputs in order. Interleavings are sampled, not enumerated.",
+        text="EventBatcher: model-based sequences of Add/IsFull/Flush(token)/timer expiry (including callbacks that run late: the time-out of a batch flushed already must not announce the current batch) against a list model. ReorderFetcher: real goroutines with generated fetch latencies and pauses injected through a verif hook between Flush and Reserve; the output must be the inputs in order. Interleavings are sampled, not enumerated.",
         note="Schedules are explored by injected microsecond pauses; a failing schedule may need several replay attempts (replay retries 20 times).",
         technique="property-based testing: rapid model-based sequences; schedule fuzzing with injected delays"),
     "C18": dict(level="exploration", design="DESIGN.md section 4 C18",
@@ -41,7 +41,7 @@ CHECKS.update({
         note="Save/Delete/Copy are treated as atomic; a crash is modelled between storage operations. UpdateRetainedCheckpoints is issued only when no checkpoint save is pending.",
         technique="property-based testing with crash-point enumeration over a journaled file system; snapshot oracle"),
     "C09": dict(level="exploration", design="DESIGN.md section 4 C09",
-        text="DKV part: generated histories with checkpoints, retention updates, forced garbage collection and reopening on the same storage in the same process; after every step every file referenced by a retained checkpoint document must exist, every retained checkpoint must restore to its snapshot, WAL files of dropped checkpoints must be gone after the retention update, and the live database must answer every read. One genuine defect (previous database object deleting files after a same-process reopen) is an open known finding and is excluded by construction. Operator part (TestPropNeighbours): a real operator writes state and checkpoints, the job is rescaled 1 -> 2..3 through the real Assembly.Deploy so that the new operators share the old tables, they rewrite and compact, run 1..3 rounds of checkpoint + UpdateRetainedCheckpoints with forced garbage collection, while each neighbour's NeedsTable answers truthfully, with an error, or not at all (drawn plan); every table named by a checkpoint document an operator retains must still exist, and every operator must answer reads of its keys.",
+        text="DKV part: generated histories with checkpoints, retention updates, forced garbage collection and reopening on the same storage in the same process; after every step every file referenced by a retained checkpoint document must exist, every retained checkpoint must restore to its snapshot, WAL files of dropped checkpoints must be gone after the retention update, and the live database must answer every read. One genuine defect (previous database object deleting files after a same-process reopen) is an open known finding and is excluded by construction. Operator part (TestPropNeighbours): a real operator writes state and checkpoints, the job is rescaled 1 -> 2..3 through the real Assembly.Deploy so that the new operators share the old tables, they rewrite and compact, run 1..3 rounds of checkpoint + UpdateRetainedCheckpoints with forced garbage collection, while each neighbour's NeedsTable answers truthfully, with an error, or not at all (drawn plan); every table named by a checkpoint document an operator retains must still exist, and every operator must answer reads of its keys. TestPropRetainedAcrossMerge: M databases merged into N (fresh directories or the directory of an origin), job-style checkpoints and uniform retention updates; after every retention update every retained checkpoint - including the merged one - must have all table and WAL files and restore to its snapshot.",
         note="GC timing is explored at forced collection points only. An unreachable and a slow neighbour are both modelled as an error answer of NeedsTable.",
         technique="property-based testing: rapid stateful histories with forced GC, file-existence invariant over a journaled file system"),
 })
@@ -52,15 +52,15 @@ CHECKS.update({
         note="The handler is a pure function of the event values. Storage is an in-memory FileSystem substituted through the dkv.options hook. A stopped operator models a dead process (its objects are kept reachable so no cleanup runs).",
         technique="property-based testing: rapid generated event scripts through the real operator vs a shadow-map reference handler"),
     "C10": dict(level="exploration", design="DESIGN.md section 4 C10",
-        text="(a) TimerRegistry + TimerStore on a real small DKV with cache sizes from one byte to unbounded: generated SetTimer / AdvanceWatermark / checkpoint+restore sequences against a set model; each advance must fire exactly the due timers once, in order, and a final drain must leave nothing. (b) The same through the real Operator with the cache shrunk by a verif hook; the reference handler rejects phantom, duplicate and early firings and the harness rejects due timers left pending after a flush.",
+        text="(a) TimerRegistry + TimerStore on a real small DKV with cache sizes from one byte to unbounded: generated SetTimer / AdvanceWatermark / checkpoint+restore sequences against a set model; each advance must fire exactly the due timers once, in order, and a final drain must leave nothing. (b) The same through the real Operator with the cache shrunk by a verif hook; the reference handler rejects phantom, duplicate and early firings and the harness rejects due timers left pending after a flush. The registry/store check owns the range of one of 1..3 operators (ranges not starting at group 0).",
         note="Tie order is free; a timer set at or before the current minimum watermark is a documented no-op.",
         technique="property-based testing: rapid stateful sequences vs a pending-timer set model"),
     "C11": dict(level="exploration", design="DESIGN.md section 4 C11",
-        text="(a) wmark.Watermarker over arbitrary timestamp sequences: monotone, strictly below the maximum, exactly max-1ns. (b) Real operators with 1..4 upstream ids under generated interleavings of events, watermarks, flushes and checkpoints: every ProcessEventBatch request must carry the minimum of the latest upstream watermarks and no timer beyond it may fire. The runner-side clause is covered in the runner-level harness (C04/C16) when built.",
+        text="(a) wmark.Watermarker over arbitrary timestamp sequences: monotone, strictly below the maximum, exactly max-1ns. (b) Real operators with 1..4 upstream ids under generated interleavings of events, watermarks, flushes and checkpoints: every ProcessEventBatch request must carry the minimum of the latest upstream watermarks and no timer beyond it may fire. The runner-side clause is covered in the runner-level harness (C04/C16) when built. Watermarker timestamps are drawn from the whole time.Time range (before 1970, around the epoch, outside the int64-nanosecond window).",
         note="Before the first watermark message the operator reports year 1, treated as the epoch.",
         technique="property-based testing: rapid histories vs a min-of-upstreams model"),
     "C06": dict(level="exploration", design="DESIGN.md section 4 C06",
-        text="Generated operator histories (state, timers, watermarks, tiny DKV) with 1..4 operators, checkpointed and restored through the real jobs.Assembly.Deploy into 1..4 fresh operators with the operator checkpoints recorded in a drawn permutation, then probed and continued, with further rescales. Plus a direct differential of AssignRanges against a quadratic overlap scan. One genuine defect (re-merging tables that hold foreign keys after a second change of the operator count) is an open known finding and excluded by construction.",
+        text="Generated operator histories (state, timers, watermarks, tiny DKV) with 1..4 operators, checkpointed and restored through the real jobs.Assembly.Deploy into 1..4 fresh operators with the operator checkpoints recorded in a drawn permutation, then probed and continued, with further rescales. Plus a direct differential of AssignRanges against a quadratic overlap scan. One genuine defect (re-merging tables that hold foreign keys after a second change of the operator count) is an open known finding and excluded by construction. TestPropMergeRestore checks the mechanism below the operator with tens of thousands of cases: M dkv.DB instances checkpointed, their handles recorded in a drawn order and opened as N instances (merge of level lists and WALs, ownership-filtered replay, sequence numbers resumed), every key read through Get and ScanPrefix against a map model, further writes that return to restored entries, a second restore or a second change of the count (the latter only while no table exists: open finding).",
         note="The harness plays the source runners and routes by the reference key-group arithmetic. Only visibility through the handler API is asserted.",
         technique="property-based testing: rapid histories through real operators and Assembly.Deploy vs shadow-map/timer-set model; differential for AssignRanges"),
 })
@@ -71,15 +71,15 @@ CHECKS.update({
         note="The schedule is owned at the granularity of HandleEvent calls; the re-entry order of released senders is left to the Go scheduler (the oracle does not depend on it).",
         technique="property-based testing: rapid generated schedules over real goroutines with hook-reported parking; cut-membership oracle"),
     "C12": dict(level="exploration", design="DESIGN.md section 4 C12",
-        text="snapshots.Store over a journaling in-memory StorageLocation: generated sequences of create-checkpoint / create-savepoint / operator and runner acknowledgements (expected, duplicate, foreign; pending, stale, future ids) / restarts. A model of the pending checkpoint decides when a publication must happen (awaited on the store's CheckpointEvents) and when it must not; every published file is decoded and compared entry by entry.",
+        text="snapshots.Store over a journaling in-memory StorageLocation: generated sequences of create-checkpoint / create-savepoint / operator and runner acknowledgements (expected, duplicate, foreign; pending, stale, future ids) / restarts. A model of the pending checkpoint decides when a publication must happen (awaited on the store's CheckpointEvents) and when it must not; every published file is decoded and compared entry by entry. A 'new assembly' op abandons the pending checkpoint as jobs.Job.start does (its id stays used, later acknowledgements for it are foreign); in a quarter of the cases operator i and source runner i share a node id.",
         note="An id handed out but never published may be reused after a restart. Split states are compared as a multiset.",
         technique="property-based testing: rapid model-based call sequences vs a pending-checkpoint model"),
     "C13": dict(level="fault_enumeration", design="DESIGN.md section 4 C13",
-        text="snapshots.Store with the asynchronous snapshot writes and removals held and released one at a time so that publications of consecutive checkpoints overlap, retention notifications received late, clean restarts. Every storage operation is journaled; at crash points (all of them in the thorough tier, the end plus <=4 drawn ones in quick) a new Store must load exactly the newest checkpoint present in the materialised storage; no Remove may name the newest completely written checkpoint; retention notifications never go backwards. One in ten cases replays the final storage through the real LocalDirectory.",
+        text="snapshots.Store with the asynchronous snapshot writes and removals held and released one at a time so that publications of consecutive checkpoints overlap, retention notifications received late, clean restarts. Every storage operation is journaled; at crash points (all of them in the thorough tier, the end plus <=4 drawn ones in quick) a new Store must load exactly the newest checkpoint present in the materialised storage; no Remove may name the newest completely written checkpoint; retention notifications never go backwards. One in ten cases replays the final storage through the real LocalDirectory. The publication goroutines can also be held at their very start (verif hook point) and released youngest first; a quarter of the completed checkpoints are savepoints whose artifact is assembled from an operator checkpoints file that follows the retention updates: every savepoint the job completed must have its artifact and no publication may fail.",
         note="Write/Remove are atomic in the journal; a crash inside one Write is out of scope. The newest checkpoint is determined by decoding the files, independently of their names.",
-        technique="property-based testing with crash-point enumeration over a journaled storage location; gated asynchronous steps"),
+        technique="property-based testing with crash-point enumeration over a journaled storage location; gated asynchronous steps and hook-held publication starts"),
     "C15": dict(level="exploration", design="DESIGN.md section 4 C15",
-        text="The real jobs.Job with recording fake operators and source runners, a FrozenClock and a journaling storage location: generated histories of worker starts, graceful stops, kills (heartbeat expiry), checkpoint ticks, full and partial acknowledgements and injected Deploy failures. The recorded calls are examined after every step: deployments address exactly WorkerCount registered live operators and runners and hand over the latest completed checkpoint, StartCheckpoint only reaches the current healthy assembly, ticks start checkpoints, full acknowledgement publishes a snapshot, a lost assembly is replaced when enough live workers exist.",
+        text="The real jobs.Job with recording fake operators and source runners, a FrozenClock and a journaling storage location: generated histories of worker starts, graceful stops, kills (heartbeat expiry), checkpoint ticks, full and partial acknowledgements and injected Deploy failures. The recorded calls are examined after every step: deployments address exactly WorkerCount registered live operators and runners and hand over the latest completed checkpoint, StartCheckpoint only reaches the current healthy assembly, ticks start checkpoints, full acknowledgement publishes a snapshot, a lost assembly is replaced when enough live workers exist. Deployment windows: the Deploy calls of a round block while a drawn member deregisters or stops heartbeating, then they are let go (the round is triggered by a worker starting, or by a member leaving with a standby present).",
         note="Liveness is bounded progress under harness-owned steps. Worker-side recovery is covered by the cluster-level check C01 when built.",
         technique="property-based testing: rapid generated histories against recording fakes; invariants over the call history"),
 })
@@ -98,7 +98,7 @@ CHECKS.update({
         note="The Kinesis part needs loopback sockets; discovery runs on 1 ms wall-clock ticks with 6 ms settling per step.",
         technique="property-based testing: rapid generated histories; stream/assignment oracles; model-based for the tracker"),
     "C14": dict(level="exploration", design="DESIGN.md section 4 C14",
-        text="Cluster runs in which HandleCreateSavepoint is called at a drawn moment - in half of the cases while a periodic checkpoint is held pending (it must fold into it: same id, no second StartCheckpoint), in a third while a further checkpoint completes during the artifact's assembly. Once the artifact exists everything is stopped and every file of the working storage and of the job's checkpoint directory is deleted; a new job is started from the savepoint URI with the same or another worker count and must process the rest of the input under the exactly-once oracle and end with the correct totals.",
+        text="Cluster runs in which HandleCreateSavepoint is called at a drawn moment - in half of the cases while a periodic checkpoint is held pending (it must fold into it: same id, no second StartCheckpoint), in a third while a further checkpoint completes during the artifact's assembly. Once the artifact exists everything is stopped and every file of the working storage and of the job's checkpoint directory is deleted; a new job is started from the savepoint URI with the same or another worker count and must process the rest of the input under the exactly-once oracle and end with the correct totals. In a fifth of the cases the goroutine that publishes the savepoint's checkpoint is held at its start while the next periodic checkpoint is started; in half of the cases the restored job is itself saved (right after its deployment or after the rest of the input), wiped and restored once more, with a bias to fewer workers and small memtables.",
         note="Job and operator storage share one in-memory file system through a StorageLocation adapter; the real snapshot-store code creates and restores the artifact.",
         technique="property-based testing: rapid generated runs with savepoint/wipe/restore; exactly-once oracle as the differential"),
 })
